@@ -1,6 +1,7 @@
 import Restli.Model.Encode
 import Restli.Model.TreeReader
 import Restli.Proofs.NoPanic
+import Restli.Proofs.Patch
 /-! # C07 — read-only / create-only field exclusion (codec level)
 
 Writer: `WriteMap` consults the exclusion spec once per key, under the scope extended by that
@@ -113,5 +114,37 @@ example : gmatches (newPathSpec [[97, 47, 42, 47, 98]]) [[97], [107], [99]] = .n
 /-- after the repair a directive that is a prefix of another is kept, in either order -/
 example : gmatches (newPathSpec [[97], [97, 47, 98]]) [[97]] = .yes := by rfl
 example : gmatches (newPathSpec [[97, 47, 98], [97]]) [[97]] = .yes := by rfl
+
+/-! ## partial updates -/
+
+/-- **client side**: a partial update that deletes, sets or patches a field (own or inherited, at
+the top or inside any nested patch scope) which the writer's exclusion spec matches is never
+emitted by `MarshalRestLiPatch`: the call fails before anything is written -/
+theorem c07_pu_touching_excluded_refused (c : EncCfg) (fuel : Nat) (scope : List Bytes) (n : TName) (pu : PU)
+    (f : Field) (hf : f ∈ allFields c.env (includeFuel c.env) n) (ht : pu.touches c.env f = true)
+    (hx : c.excl.matchesB (scope ++ [f.name]) = true) : ∀ d, marshalPatch c fuel scope n pu ≠ .ok d := by
+  intro d h
+  have := (checkFields_ok_iff c.env n pu _).1 (marshalPatch_ok_checked c fuel scope n pu d h) f hf
+  simp [fieldLegal, ht, hx] at this
+
+/-- **server side**: `UnmarshalRestLiPatch` never returns a partial update that touches a field the
+reader's exclusion spec matches (with the leading `patch` scope ignored, the path is relative to
+the entity) -/
+theorem c07_pu_reader_rejects_excluded (c : TCfg) (fuel : Nat) (scope : List Seg) (n : TName) (pu₀ pu : PU)
+    (t : Json.JVal) (m : List Bytes) (h : unmarshalPatch c fuel scope n pu₀ t = .ok pu m)
+    (f : Field) (hf : f ∈ allFields c.env (includeFuel c.env) n) (ht : pu.touches c.env f = true) :
+    c.tracker.check (scope ++ [.key f.name]) ≠ .yes := by
+  have := (checkFields_ok_iff c.env n pu _).1 (unmarshalPatch_ok_checked c fuel scope n pu₀ pu t m h) f hf
+  simp only [fieldLegal, ht, Bool.not_true, Bool.false_or, Bool.and_eq_true, Bool.not_eq_eq_eq_not,
+    Bool.not_true, beq_eq_false_iff_ne] at this
+  exact this.1
+
+/-- deviation (known finding): when the entity itself has an excluded field that is literally
+named `patch`, the envelope key is looked up in the exclusion spec, matches, and every partial
+update of that entity — whatever it touches — is serialised as `{}` without an error -/
+theorem c07_field_named_patch_cex :
+    marshalPU { env := [("R", .record [] [⟨patchKey, .prim .str, true, none⟩, ⟨[120], .prim .i32, true, none⟩])],
+                excl := newPathSpec [patchKey], sortKeys := true } 5 "R" (.mk [] [([120], .i32 1)] [])
+      = .ok (.obj []) := by rfl
 
 end Restli.Codec
